@@ -728,6 +728,37 @@ func (e *Exec) evalGhostBuiltin(st *State, call *ast.CallExpr, name string) Term
 				return And(Not(Eq(v, Int(0))), Eq(app(SInt, "dyntype", v), Int(int64(id))))
 			}
 		}
+		// not boxed yet in this function: a named type of a loaded package ("Event" stands for *Event when the
+		// type is a struct, as cached values are pointers)
+		var found types.Type
+		lookIn := func(pk *types.Package) {
+			if found != nil || pk == nil {
+				return
+			}
+			if o, ok := pk.Scope().Lookup(want).(*types.TypeName); ok {
+				found = o.Type()
+				if _, isStruct := found.Underlying().(*types.Struct); isStruct {
+					found = types.NewPointer(found)
+				}
+			}
+		}
+		if e.Fn != nil && e.Fn.Pkg != nil {
+			lookIn(e.Fn.Pkg.Types)
+		}
+		if found == nil {
+			var paths []string
+			for pp := range e.P.Pkgs {
+				paths = append(paths, pp)
+			}
+			sortStrings(paths)
+			for _, pp := range paths {
+				lookIn(e.P.Pkgs[pp].Types)
+			}
+		}
+		if found != nil {
+			id := e.dynID(found)
+			return And(Not(Eq(v, Int(0))), Eq(app(SInt, "dyntype", v), Int(int64(id))))
+		}
 		e.unsupported(call.Pos(), "__dyn: unknown dynamic type %s", want)
 		return True
 	case "__upd":
@@ -1244,7 +1275,13 @@ func (p *Program) lookupType(name string, sc *clauseScope) types.Type {
 	}
 	x = p.localizePkgNames(x, sc, sc.pos)
 	info := &types.Info{Types: map[ast.Expr]types.TypeAndValue{}}
-	if err := types.CheckExpr(p.Fset, sc.pkg, sc.pos, x, info); err != nil {
+	err = types.CheckExpr(p.Fset, sc.pkg, sc.pos, x, info)
+	if err != nil {
+		// a local of the function may shadow the type's name (LRU.Add has a variable called entry): package scope
+		info = &types.Info{Types: map[ast.Expr]types.TypeAndValue{}}
+		err = types.CheckExpr(p.Fset, sc.pkg, token.NoPos, x, info)
+	}
+	if err != nil {
 		p.noteOnce("frame designator type " + name + " does not resolve at " + p.Fset.Position(sc.pos).String() + ": the frame falls back to 'everything'")
 		return nil
 	}
@@ -1361,6 +1398,9 @@ func (e *Exec) callContract(st *State, call *ast.CallExpr, fn *types.Func, c *Co
 	env := st.Clone()
 	if c.NoBody {
 		// stub: receiver is the first parameter
+		if recv.S == "" {
+			recv = Int(0) // placeholder receiver of a plain external function (__static)
+		}
 		e.bindSignature(env, f, nil, sc.ftype, Term{}, append([]Term{recv}, args...))
 	} else {
 		e.bindSignature(env, f, sc.decl, sc.ftype, recv, args)
@@ -1456,6 +1496,9 @@ func (e *Exec) callContract(st *State, call *ast.CallExpr, fn *types.Func, c *Co
 	savedRes, savedOld := e.specRes, e.specOld
 	e.specRes, e.specOld = res, pre
 	for _, en := range c.Ensures {
+		if en.Hidden {
+			continue
+		}
 		if err := e.P.CheckClause(c, en, sc.pos, sc); err != nil {
 			e.unsupported(call.Pos(), "%v", err)
 			continue
